@@ -8,6 +8,7 @@ import (
 	"crypto/sha256"
 	"encoding/base64"
 	"fmt"
+	"github.com/Oneledger/protocol/utils"
 	"io/ioutil"
 	"math/big"
 	"os"
@@ -129,6 +130,7 @@ type Params struct {
 	PoolFunds       int64                       // whole OLT in the rewards pool
 	GenesisMatures  int                         // number of distinct maturity heights carried by the genesis delegation state (exported-state genesis)
 	ETH             *ethchain.ChainDriverOption // ETH chain-driver option of the genesis (nil = empty, as before)
+	NEth            int                         // Ethereum-keyed accounts funded at genesis (OLVM senders; needs Frankenstein > 0)
 }
 
 func SmallParams(seed uint64) Params {
@@ -143,6 +145,7 @@ type World struct {
 	Vals        []*Val
 	Accts       []*Acct
 	Genesis     *config.GenesisDoc
+	Olvm        *OlvmWorld // set when P.NEth > 0: the Ethereum-keyed accounts and the OLVM transaction builder
 	State       consensus.AppState
 	OLT         balance.Currency
 	ChainID     string
@@ -236,6 +239,16 @@ func NewWorld(p Params) *World {
 				*amt("40000000000000000000000000"), *amt("40000000000000000000000000"), *amt("30000000000000000000000000")},
 			BurnoutRate: *amt("5000000000000000000")},
 	}
+	var ethAccts []*EthAcct
+	for i := 0; i < p.NEth; i++ {
+		e := NewEthAcct(p.Seed, fmt.Sprintf("eth%d", i))
+		ethAccts = append(ethAccts, e)
+		f := oltUnits(1000)
+		if i == p.NEth-1 && p.NEth > 2 {
+			f = *balance.NewAmountFromBigInt(new(big.Int).Mul(big.NewInt(10000000000), big.NewInt(90000))) // 90000 gas at the default price
+		}
+		balances = append(balances, consensus.BalanceState{Address: e.Addr, Currency: "OLT", Amount: f})
+	}
 	w.State = consensus.AppState{
 		Currencies: []balance.Currency{olt, vt, obtc, oeth, ottc},
 		Balances:   balances, Staking: staking, Witness: witness,
@@ -257,6 +270,9 @@ func NewWorld(p Params) *World {
 	gd.ForkParams = &config.ForkParams{FrankensteinBlock: p.Frankenstein}
 	gd.ConsensusParams.Block.MaxGas = p.MaxGas
 	w.Genesis = gd
+	if p.NEth > 0 {
+		w.Olvm = &OlvmWorld{World: w, Eth: ethAccts, EvmID: utils.HashToBigInt(w.ChainID), EthFund: func() *big.Int { f := oltUnits(1000); return f.BigInt() }()}
+	}
 	return w
 }
 
